@@ -223,7 +223,7 @@ def run(ctx):
     # dispatch-focused family: small libraries that always carry an overload set and a function with default arguments
     for lib in smallgen.sample(xlib.library(lang="c++", nfunc=(1, 2), for_fortran=True, rows=pyfront.PY_ROWS,
                                             results=pyfront.PY_RESULTS, types=pyfront.PY_TYPES, ovl_sigs=pyfront.PY_OVL_SIGS,
-                                            with_overloads=True, with_class=False), ctx.seed + 500, nlib):
+                                            with_overloads=True, with_class=False, with_coercion=True), ctx.seed + 500, nlib):
         excluded += sanitize(lib)
         jobs.append((len(jobs), lib, "python", None, False))
     # class-focused family (static methods with arguments, constructors, methods)
@@ -233,6 +233,9 @@ def run(ctx):
         excluded += sanitize(lib)
         jobs.append((len(jobs), lib, "python", None, False))
     ctx.exclude_known("probe:reference-result-with-cleanup-label", excluded)
+    # struct arguments and results as extension types (python.rst PY_struct_arg: class; struct-class-c / -cxx)
+    from ..exec import structs_e2e
+    structs_e2e.run_structs(ctx, "python", 8 if quick else 120, configs=({"wrap_python": True, "PY_struct_arg": "class"},))
     for out in core.pool_map(_gen_job, jobs):
         ctx.case(n=out["ncalls"], label=out["labels"])
         for nt in out["nontrivial"]:
@@ -249,6 +252,9 @@ def run(ctx):
 
 def replay(ctx, rec):
     c = rec["case"]
+    if "struct_case" in c:
+        from ..exec import structs_e2e
+        return structs_e2e.replay_case(ctx, rec)
     if c.get("probe"):
         why = dict(PROBES)[c["probe"]]()
         if why:
